@@ -223,7 +223,7 @@ def run(tier):
             raise V.ToolError("oracle self-test failed: %s does not violate CacheTransparent" % b)
         rej[b] = r["violated"]
     c.set("selftest_broken_caches_rejected_by", rej)
-    n, par, nodes = (28, 4, "ABC") if tier == "quick" else (120, 4, "ABCD")
+    n, par, nodes = (28, 4, "ABCE") if tier == "quick" else (120, 4, "ABCDE")
     rnd = random.Random(V.seed())
     chosen = pick(hs, n, rnd)
     V.build_harness("c14")
@@ -249,5 +249,5 @@ def replay(path, tier):
             c.violation("model/" + res["violated"], "model violation", p)
     else:
         V.build_harness("c14")
-        run_histories(c, [(p["id"], p["hist"])], "ABC", 1)
+        run_histories(c, [(p["id"], p["hist"])], "ABCDE", 1)
     return 1 if c.violations else 0
